@@ -16,6 +16,10 @@ ASND = {'test': 'TestVerifAssocSender', 'comp': 'as', 'pairs': True, 'quick': {'
         'thorough': {'VERIF_N': 600, 'VERIF_OPS': 300}, 'seeds': {'quick': 1, 'thorough': 8}}
 
 
+# graceful shutdown, direct drive: two established real associations, model Sd replayed line by line (C08)
+SDD = {'test': 'TestVerifShutdown', 'comp': 'sd', 'quick': {'VERIF_N': 400}, 'thorough': {'VERIF_N': 4000},
+       'seeds': {'quick': 1, 'thorough': 8}, 'corpus_glob': 'sd_*.ops'}
+
 HSD = {'test': 'TestVerifHandshake', 'comp': 'hs', 'quick': {'VERIF_N': 96},
        'thorough': {'VERIF_N': 960}, 'seeds': {'quick': 1, 'thorough': 8}}
 
@@ -62,7 +66,7 @@ PROPS = {
     'C02': {'jobs': [E2E_T], 'rule': E2E_RULE},
     'C06': {'jobs': [E2E_PR, E2E_T, E2E_API, REASM, ASND], 'rule': E2E_RULE},
     'C07': {'jobs': [E2E_PR], 'rule': E2E_RULE},
-    'C08': {'jobs': [E2E_SD], 'rule': E2E_RULE},
+    'C08': {'jobs': [SDD, dict(E2E_SD, corpus_glob='e2e_*.ops')], 'rule': E2E_RULE},
     'C04': {'jobs': [HSD, E2E_HS, E2E_T], 'assumptions': [
         'theorems are about the L0 model Hs (two endpoints + packet histories); the model is replayed line by line against two real associations driven by a packet shuffler (TestVerifHandshake)',
         'the blocking behaviour of Client/Server calls, T1 retry budget and connect failure are covered by the e2e handshake scenarios and by C19 theorems, not by the Hs model',
